@@ -126,3 +126,34 @@ func init() {
 		Assumptions: commonAssumptions,
 	})
 }
+
+func init() {
+	addProp(&PropSpec{ID: "C01", Level: "other",
+		Explanation: "Type safety of the object language is not provable by static analysis of the Go source. Decided are necessary conditions, each with a concrete failing program when broken: the equality used by every typing rule is a coherent coinductive comparison (memo key, quantifier loops); every dispatcher over forms/types/modes/execution versions whose default fails is exhaustive; Polarity is never inspected on a type name.",
+		NotDecided:  "that these conditions suffice; absence of 'channel not initialised' errors; behaviour under --notypecheck; all schedule-dependent behaviour",
+		Assumptions: commonAssumptions})
+	addProp(&PropSpec{ID: "C02", Level: "other",
+		Explanation: "Deadlock freedom and the set of live goroutines at quiescence are not decidable by this family. Decided are the three mechanisms the property names, as must-call / dominance facts: multi-provider processes are duplicated before any raw channel operation or callback, and raw channel operations exist only in the guarded helpers and the forward form; drop spawns a to-drop forward, a GC request cascades to every free name, the positive to-drop forward drops both payload channels; and the binder/occurrence contradiction rule on Name.Equal vs Name.Substitute (whose single violated state was the root cause of the duplication deadlock F12, now repaired).",
+		NotDecided:  "quiescence detection by heartbeat timing, absence of deadlock, which goroutines survive",
+		Assumptions: commonAssumptions})
+	addProp(&PropSpec{ID: "C03", Level: "other",
+		Explanation: "Confluence over schedules is not decidable statically. Decided are the code-shape conditions without which outcomes demonstrably depend on history or interleaving: function bodies are read-only and copied per call; every body handed to a new process is fresh, a per-iteration copy, or a disjoint child; duplication happens only at the guarded points; Substitute/FreeNames/typing agree on binders.",
+		NotDecided:  "equality of printed multisets across schedules, cores and modes",
+		Assumptions: commonAssumptions})
+	addProp(&PropSpec{ID: "C04", Level: "other",
+		Explanation: "There is no reference semantics in the repository to compare against statically and the ordering clause is about run-time happens-before. Decided: substitution respects binders and reaches every name field and child (three-sibling agreement), Substitute rewrites only names that compare Equal, and dispatchers with failing defaults are exhaustive.",
+		NotDecided:  "that printed labels equal the calculus' results; causal order of prints",
+		Assumptions: commonAssumptions})
+	addProp(&PropSpec{ID: "C07", Level: "other",
+		Explanation: "Equality of two verdict functions over all programs is not decidable without a second implementation. Decided (soundness direction, rule by rule): type equality is coherent and its for-all loops over choice branches examine every branch; each case branch is typed in its own context copy; binders are fresh; the cut splits the context by the body's own free names.",
+		NotDecided:  "completeness (well-typed programs are not rejected); the preliminary free-name bookkeeping across processes",
+		Assumptions: commonAssumptions})
+	addProp(&PropSpec{ID: "C14", Level: "other",
+		Explanation: "Invariance under all renamings is a metamorphic statement over programs and not decidable directly. Decided are the code-shape conditions that make name handling depend only on binding structure: binder agreement of substitution, free names and typing; Name.Substitute rewrites only names that Name.Equal equates (abstract evaluation over all initialisation/identifier states); binders are fresh; callee bodies are copied per call.",
+		NotDecided:  "verdict/outcome equality under renaming and permutation as such",
+		Assumptions: commonAssumptions})
+	addProp(&PropSpec{ID: "C16", Level: "other",
+		Explanation: "Decided: mode assignment reaches every node and the post-check rejects any node left unset or invalid; within a type every child is checked against the same expected mode except across shifts (source mode); the default mode is the top mode of C17.",
+		NotDecided:  "agreement with an independent inference; stability under writing the inferred annotation explicitly; independence of declaration order (purity of inference is not yet decided by a rule)",
+		Assumptions: commonAssumptions})
+}
